@@ -27,6 +27,8 @@ is [w] and, for Copeland / minimax / Schulze, w is strictly first in the rule's 
 from the ballots).  Divisor rules: no tie-freeness; seats inside an unresolved Tie are counted for nobody.
 """
 import itertools
+import hashlib
+import json
 from fractions import Fraction
 from common import *   # noqa
 
@@ -1073,11 +1075,20 @@ def _ha_cfg(rng, directed=None):
     elif kind == 'mid':
         votes = [[i, rng.randint(0, 200)] for i in range(m)]
     elif kind == 'big':
-        votes = [[i, 10 ** 20 + rng.randint(0, 3)] for i in range(m)]
+        K = rng.choice([10 ** 18, 10 ** 20, 10 ** 30, 2 ** 53])
+        mult = [rng.choice([1, 1, 2, 3]) for _ in range(m)]
+        votes = [[i, K * mult[i] + rng.randint(-1, 2)] for i in range(m)]      # near ties of the quotients at magnitude
+        tags.append('ha:big_near_tie')
     else:
         votes = [[i, rng.choice([0, 0, 1, 2, 5])] for i in range(m)]
     if all(v == 0 for _, v in votes):
         votes[0][1] = 3
+    if kind in ('small', 'mid') and rng.random() < 0.12:
+        den = rng.choice([2, 3, 7])
+        votes = [[i, Fraction(v, den)] for i, v in votes]
+        tags.append('ha:fraction_votes')
+    if sum(1 for _, v in votes if v == 0) >= 2:
+        tags.append('ha:two_zero_vote_parties')
     n = rng.randint(1, 9)
     prev, caps = [], []
     if rng.random() < 0.4 or directed == 'prev':
@@ -1098,6 +1109,10 @@ def _ha_cfg(rng, directed=None):
         tags.append('ha:caps')
     if any(k > 0 for _, k in prev):
         tags.append('ha:prev_gains')
+    if any(k > 0 and i >= m for i, k in prev):
+        tags.append('ha:prev_absent_party')
+    if first is not None:
+        tags.append('ha:modified_first_coef')
     cfg = {'divisor': div, 'first_coef': first, 'votes': [[i, num_str(v)] for i, v in votes], 'n': n,
            'prev': prev, 'max': caps}
     return cfg, tags
@@ -1155,7 +1170,7 @@ def directed_cases():
     # a three-candidate cycle-free profile with a clear winner for every ranked rule
     base = [[[0, 1, 2], '3'], [[1, 0, 2], '2'], [[2, 0, 1], '1'], [[1, {'set': [0, 2]}], '1'], [[2, 1], '1']]
     for rule in RANKED_RULES:
-        param = {'borda': 1, 'geometric': 2, 'fixed_top': 2, 'copeland': 1}.get(rule)
+        param = {'borda': 1, 'geometric': 2, 'fixed_top': 2, 'copeland': 1, 'sequence': ['5', '3', '1']}.get(rule)
         b = base
         w = ref_winner(rule, param, b)
         if w is None:
@@ -1239,7 +1254,16 @@ def directed_cases():
     # the wider reading of the new ballot (w first, others below): minimal cases in which the RULE ITSELF lets w lose
     for rule, param, base, w, nb in NEW_FULL_WITNESSES:
         c = _mk(rule, param, base, add_ballot(base, nb), w, 'new_full', {'kind': 'new', 'ballot': nb},
-                [f'{rule}:new_full', f'{rule}:premise', 'directed', 'new_full_rule_level_failure', 'bucklin:lift_out_of_shared3'])
+                [f'{rule}:new_full', f'{rule}:premise', 'directed', 'new_full_rule_level_failure', 'bucklin:lift_out_of_shared3',
+                      'names:int0', 'names:empty0', 'names:person', 'state:shared', 'state:shared_rev', 'weights:dec', 'weights:frac',
+                      'score_sum:scores_half', 'score_sum:scores_neg', 'score_sum:scores_dec7', 'score_sum:stype_dec',
+                      'score_sum:stype_frac', 'score_sum:unscored_negative', 'approval:approve_on_empty', 'approval:split_True',
+                      'approval:split_False', 'modified_borda:lift_lengthens_longest', 'lift_lengthens_longest', 'cands_6plus',
+                      'only_in_shared_ranks', 'moves_for_every_candidate', 'ha:modified_first_coef', 'ha:prev_absent_party',
+                      'ha:two_zero_vote_parties', 'ha:fraction_votes', 'ha:big_near_tie', 'borda:param_0', 'borda:param_2',
+                      'geometric:param_3', 'geometric:param_10', 'fixed_top:param_5', 'sequence:param_10x4x4x1',
+                      'sequence:param_5x3x1', 'copeland:param_0', 'copeland:param_1']
+                     + [f'{r}:big_near_tie' for r in ['plurality', 'approval'] + RANKED_RULES])
         out.append(c)
     # Bucklin: the winner is lifted out of a THREE-way shared rank (W=0, X=1, Y=2, Z=3); every candidate's lifts are issued
     base = [[[{'set': [0, 1, 2]}, 3], '1'], [[3, 0, 1, 2], '3'], [[0, 1, 2, 3], '1']]
@@ -1247,16 +1271,209 @@ def directed_cases():
         for c in shared3_moves(rule, base):
             c['_tags'] += ['directed']
             out.append(c)
+    # ModifiedBorda: ballots of different lengths; lifting w out of the shared rank LENGTHENS the longest ballot (every score
+    # on that ballot is re-based)
+    base = [[[1, {'set': [0, 2]}], '2'], [[0, 1], '2'], [[2, 0], '1'], [[0], '1']]
+    for rule in ('modified_borda', 'borda', 'sequence'):
+        param = {'borda': 2, 'sequence': ['10', '4', '4', '1']}.get(rule)
+        for w in all_cands(base):
+            for c in ranked_moves(rule, param, base, w):
+                c['_tags'] += ['directed', 'only_in_shared_ranks' if _only_in_shared(base) else 'directed']
+                if w == ref_winner(rule, param, base):
+                    c['_tags'].append(f'{rule}:premise')
+                out.append(c)
+    # approval: a voter who approved nobody now approves w; satisfaction approval (split) next to it
+    base = [[{'set': [0, 1]}, '2'], [{'set': [1, 2]}, '1'], [{'set': [0]}, '2'], [{'set': []}, '2']]
+    for c in approval_moves(base, 0, None, None):
+        c['_tags'] += ['approval:premise', 'directed']
+        out.append(c)
+    for c in approval_moves(base[:3], 0, None, 1):
+        c['_tags'] += ['approval:premise', 'directed']
+        out.append(c)
     # highest averages: exact quotient tie at the last seat, cap binding, previous gains
     cfg = {'divisor': 'd_hondt', 'first_coef': None, 'votes': [[0, '6'], [1, '3'], [2, '3']], 'n': 3, 'prev': [], 'max': []}
     out += [dict(c, _tags=c['_tags'] + ['directed', 'ha:tie_in_base']) for c in ha_pairs(cfg, [])]
     cfg = {'divisor': 'sainte_lague', 'first_coef': None, 'votes': [[0, '10'], [1, '6'], [2, '1']], 'n': 4,
            'prev': [[1, 1]], 'max': [[0, 2]]}
     out += [dict(c, _tags=c['_tags'] + ['directed', 'ha:caps', 'ha:prev_gains']) for c in ha_pairs(cfg, [])]
+    # modified first coefficient, a seat held by a party without votes, two zero-vote parties, Fraction votes, 10^30
+    cfg = {'divisor': 'sainte_lague', 'first_coef': '7/5', 'votes': [[0, '21/2'], [1, '13/2'], [2, '0'], [3, '0']], 'n': 5,
+           'prev': [[4, 1], [1, 1]], 'max': [[0, 3]]}
+    out += [dict(c, _tags=c['_tags'] + ['directed', 'ha:caps', 'ha:prev_gains', 'ha:modified_first_coef', 'ha:prev_absent_party',
+                                        'ha:two_zero_vote_parties', 'ha:fraction_votes']) for c in ha_pairs(cfg, [])]
+    K = 10 ** 30
+    cfg = {'divisor': 'd_hondt', 'first_coef': None, 'votes': [[0, str(2 * K + 1)], [1, str(K)], [2, str(K + 1)]], 'n': 4,
+           'prev': [], 'max': []}
+    out += [dict(c, _tags=c['_tags'] + ['directed', 'ha:big_near_tie']) for c in ha_pairs(cfg, [])]
     return out
 
 
+BIG = [10 ** 18, 10 ** 30, 2 ** 53, 10 ** 9]
+
+
+def _scale(prof, K, bump):
+    return [[b, num_str(Fraction(s) * K + e)] for (b, s), e in zip(prof, bump)]
+
+
+def gen_big_near_tie(rng, per_rule):
+    """weights of the order 10^9 .. 10^30 in which the winner's lead is ONE vote: a small profile with a tie at the top
+    is scaled and single votes are added until the reference computation finds a sole winner"""
+    for rule in ['plurality', 'approval'] + RANKED_RULES:
+        made = 0
+        # the deterministic member of the family: two mirrored ballots, K + 1 against K
+        K = BIG[made % len(BIG)]
+        if rule == 'plurality':
+            first = [[0, num_str(K + 1)], [1, num_str(K)], [2, '0']]
+        elif rule == 'approval':
+            first = [[{'set': [0, 2]}, num_str(K + 1)], [{'set': [1, 2]}, num_str(K)], [{'set': [0, 1]}, '3']]
+        else:
+            first = [[[0, 1, 2], num_str(K + 1)], [[1, 0, 2], num_str(K)]]
+        pending = [(first, _param(rng, rule))]
+        tries = 0
+        while made < per_rule and tries < per_rule * 60:
+            tries += 1
+            if pending:
+                base, param = pending.pop()
+            else:
+                K = rng.choice(BIG)
+                param = _param(rng, rule)
+                if rule == 'plurality':
+                    small = [[i, str(rng.choice([1, 2, 2, 3]))] for i in range(rng.randint(2, 4))]
+                elif rule == 'approval':
+                    small = _rand_approval(rng, rng.randint(2, 4))
+                else:
+                    small = [[b, s if s != '1000001' else '2'] for b, s in _rand_ranked(rng, rng.randint(2, 4), 0.15)]
+                if ref_winner(rule, param, _scale(small, K, [0] * len(small))) is not None:
+                    continue                        # no tie at the top of the small profile
+                base = _scale(small, K, [rng.choice([0, 0, 1]) for _ in small])
+            w = ref_winner(rule, param, base)
+            if w is None:
+                continue
+            made += 1
+            tags = (f'{rule}:big_near_tie',)
+            if rule == 'plurality':
+                cases = _plurality_moves(base, w)
+            elif rule == 'approval':
+                cases = approval_moves(base, w, rng, param)
+            else:
+                cases = ranked_moves(rule, param, base, w, rng, 5)
+            for c in _tag_premise(cases, rule):
+                c['_tags'] += list(tags)
+                yield c
+
+
+def _plurality_moves(base, w):
+    out = []
+    pert = [[c, num_str(Fraction(s) + (1 if c == w else 0))] for c, s in base]
+    out.append(_mk('plurality', None, base, pert, w, 'new', {'kind': 'new'}, ['plurality:new']))
+    for x, s in base:
+        if x != w and Fraction(s) >= 1:
+            pert = [[c, num_str(Fraction(v) + (1 if c == w else 0) - (1 if c == x else 0))] for c, v in base]
+            out.append(_mk('plurality', None, base, pert, w, 'switch', {'kind': 'switch', 'from': x}, ['plurality:switch']))
+    return out
+
+
+SCORE_GRIDS = {
+    'half': [Fraction(k, 2) for k in range(0, 9)],                     # Fractions
+    'neg': [Fraction(k) for k in range(-3, 4)],                        # negative scores
+    'dec7': [Fraction(k * 1234567, 10 ** 7) for k in range(0, 7)],     # Decimals with 7 places
+}
+
+
+def score_moves_typed(base, w, rng, grid, param):
+    """score moves over an arbitrary grid of admissible scores (Fractions, negative numbers, long Decimals):
+    raises = every grid value above what the ballot counts for w now (its score, or the fill-in value when unscored);
+    new ballots = random ballots on which nobody counts for more than w (an absent candidate counts as the fill-in value)"""
+    out = []
+    cs = sorted({c for b, _ in base for c, _ in b['set']})
+    fill = Fraction(0) if param is None else Fraction(param)
+    vals = sorted(set(grid) | {fill})
+    tag = f'score_sum:unscored_{param}'
+    for bi, (b, s) in enumerate(base):
+        cur = dict((c, Fraction(x)) for c, x in b['set'])
+        now = cur.get(w, fill)
+        for t in [v for v in vals if v > now or (w not in cur and v == now)][:4]:
+            nb = {'set': sorted([c, num_str(t if c == w else x)] for c, x in list(cur.items()) + ([(w, t)] if w not in cur else []))}
+            tags = ['score_sum:raise', tag] + (['score_sum:raise_to_unscored_value'] if param is not None and t == fill else [])
+            if w not in cur:
+                tags.append('score_sum:raise_unscored')
+            out.append(_mk('score_sum', param, base, replace_unit(base, bi, nb), w, 'raise',
+                           {'kind': 'raise', 'ballot': bi, 'score': num_str(t)}, tags))
+    rest = [c for c in cs if c != w]
+    for _ in range(6):
+        sub = rng.sample(rest, rng.randint(0, len(rest)))
+        sw = rng.choice(vals)
+        nbl = dict([(w, sw)] + [(c, rng.choice(vals)) for c in sub])
+        if all(nbl.get(y, fill) <= sw for y in cs):
+            nb = {'set': sorted([c, num_str(v)] for c, v in nbl.items())}
+            out.append(_mk('score_sum', param, base, add_ballot(base, nb), w, 'new', {'kind': 'new', 'ballot': nb},
+                           ['score_sum:new', tag]))
+    return out
+
+
+def gen_score_typed(rng, n_prof):
+    for gname, grid in SCORE_GRIDS.items():
+        made = 0
+        for _ in range(n_prof * 30):
+            if made >= n_prof:
+                break
+            m = rng.randint(2, 4)
+            base = []
+            for _ in range(rng.randint(1, 4)):
+                k = rng.randint(1, m)
+                b = {'set': sorted([c, num_str(rng.choice(grid))] for c in rng.sample(range(m), k))}
+                if all(b != x for x, _ in base):
+                    base.append([b, str(rng.choice([1, 1, 2, 3]))])
+            param = rng.choice([None, num_str(rng.choice(grid)), '-1' if gname == 'neg' else '0'])
+            w = ref_winner('score_sum', param, base)
+            if w is None:
+                continue
+            made += 1
+            stype = {'half': 'frac', 'neg': rng.choice(['int', 'frac', 'dec']), 'dec7': 'dec'}[gname]
+            for c in _tag_premise(score_moves_typed(base, w, rng, grid, param), 'score_sum'):
+                c['_stype'] = stype
+                c['_tags'] += [f'score_sum:scores_{gname}', f'score_sum:stype_{stype}']
+                if param is not None and Fraction(param) < 0:
+                    c['_tags'].append('score_sum:unscored_negative')
+                yield c
+
+
+def _dec_safe(c):
+    """Decimal arithmetic rounds to 28 significant digits (the default context): keep Decimal weights below 10^20 so that
+    no sum or product of the evaluation is rounded — beyond that the rounding is Python's, not the library's"""
+    return all(abs(Fraction(s)) < 10 ** 20 for key in ('base', 'pert') for _, s in c[key])
+
+
+def _decorate(c):
+    """numeric type of the weights, of the scores, and object reuse — decided by a hash of the case itself"""
+    h = int(hashlib.sha256(json.dumps(strip_case(c), sort_keys=True, default=str).encode()).hexdigest()[8:16], 16)
+    if '_obj' not in c:
+        c['_obj'] = ['shared', 'shared_rev', 'fresh', 'fresh', 'fresh'][h % 5]
+    if c['_obj'] != 'fresh':
+        c['_tags'].append('state:' + c['_obj'])
+    rule = c['rule']
+    if rule in DEC_OK and '_wtype' not in c and not (rule == 'approval' and c.get('param')) and _dec_safe(c):
+        k = (h // 5) % 6
+        if k == 0:
+            c['_wtype'] = 'dec'
+        elif k == 1:
+            c['_wtype'] = 'frac'
+    if c.get('_wtype'):
+        c['_tags'].append('weights:' + c['_wtype'])
+    if rule == 'score_sum' and '_stype' not in c and c.get('param') != 'min':
+        k = (h // 30) % 5
+        if k < 2:
+            c['_stype'] = ['dec', 'frac'][k]
+            c['_tags'].append('score_sum:stype_' + c['_stype'])
+    return c
+
+
 def generate(rng, tier):
+    for c in _generate(rng, tier):
+        yield _decorate(c)
+
+
+def _generate(rng, tier):
     quick = tier == 'quick'
     for c in directed_cases():
         yield c
@@ -1271,9 +1488,13 @@ def generate(rng, tier):
         yield c
     for c in gen_bucklin_shared3(rng, 40 if quick else 800):
         yield c
+    for c in gen_big_near_tie(rng, 6 if quick else 120):
+        yield c
     for c in gen_approval(rng, 150 if quick else 3000):
         yield c
     for c in gen_score(rng, 150 if quick else 3000):
+        yield c
+    for c in gen_score_typed(rng, 25 if quick else 500):
         yield c
     if not quick:
         for c in exhaustive_cases():
@@ -1297,7 +1518,7 @@ def exhaustive_cases():
     for k in range(1, 4):
         for perm in itertools.permutations(range(3), k):
             ballots.append(list(perm))
-    params = {'borda': 1, 'geometric': 2, 'fixed_top': 2, 'copeland': 1}
+    params = {'borda': 1, 'geometric': 2, 'fixed_top': 2, 'copeland': 1, 'sequence': ['3', '2', '2']}
     for size in range(1, 4):
         for combo in itertools.combinations_with_replacement(range(len(ballots)), size):
             base = []
@@ -1319,7 +1540,16 @@ REQUIRED_COUNTERS = (['ha:house', 'ha:votes', 'ha:caps', 'ha:prev_gains', 'ha:ti
                       'score_sum:unscored_None', 'score_sum:unscored_0', 'score_sum:unscored_1', 'score_sum:unscored_2',
                       'score_sum:unscored_5', 'score_sum:unscored_min', 'bucklin_two_shared_ranks', 'minimax_unbeaten_after_move',
                       'bucklin_second_round', 'bucklin_split_collision', 'lift_unranked', 'lift_out_of_shared', 'unit_of_heavier_ballot',
-                      'merges_with_existing', 'fractional_weight', 'new_full_rule_level_failure', 'bucklin:lift_out_of_shared3']
+                      'merges_with_existing', 'fractional_weight', 'new_full_rule_level_failure', 'bucklin:lift_out_of_shared3',
+                      'names:int0', 'names:empty0', 'names:person', 'state:shared', 'state:shared_rev', 'weights:dec', 'weights:frac',
+                      'score_sum:scores_half', 'score_sum:scores_neg', 'score_sum:scores_dec7', 'score_sum:stype_dec',
+                      'score_sum:stype_frac', 'score_sum:unscored_negative', 'approval:approve_on_empty', 'approval:split_True',
+                      'approval:split_False', 'modified_borda:lift_lengthens_longest', 'lift_lengthens_longest', 'cands_6plus',
+                      'only_in_shared_ranks', 'moves_for_every_candidate', 'ha:modified_first_coef', 'ha:prev_absent_party',
+                      'ha:two_zero_vote_parties', 'ha:fraction_votes', 'ha:big_near_tie', 'borda:param_0', 'borda:param_2',
+                      'geometric:param_3', 'geometric:param_10', 'fixed_top:param_5', 'sequence:param_10x4x4x1',
+                      'sequence:param_5x3x1', 'copeland:param_0', 'copeland:param_1']
+                     + [f'{r}:big_near_tie' for r in ['plurality', 'approval'] + RANKED_RULES]
                      + [f'{r}:no_cw_4plus' for r in ['copeland', 'minimax_wv', 'minimax_margins', 'schulze']]
                      + [f'{r}:new_full' for r in ['bucklin', 'bucklin_whole', 'copeland', 'minimax_wv', 'minimax_margins', 'schulze']]
                      + [f'{r}:{k}' for r in RANKED_RULES for k in ('lift', 'new', 'premise')])
